@@ -48,6 +48,7 @@ def gen_cases(rng, tier: str) -> list[dict]:
 
 
 def impl_as_expression(e, x: str, route: str):
+    x = wire.fresh_str(x)
     if route == "P":
         return call(lambda: sm.Partial(e, x).as_expression(), timeout=20)
     if route == "D":
